@@ -228,7 +228,7 @@ class Runner:
         path = os.path.join(d, "%s-seed%d-run%d-%s.json" % (self.prop, self.seed, index, hashlib.sha256(fp_key(v["fp"]).encode()).hexdigest()[:8]))
         doc = {
             "property": self.prop, "engine": getattr(self.mod, "ENGINE", "?"), "verif_seed": self.seed, "run_index": index, "tier": self.tier,
-            "case": case, "violation": {"fingerprint": v["fp"], "detail": str(v.get("detail"))[:4000]},
+            "case": case, "violation": {"fingerprint": v["fp"], "detail": str(v.get("detail"))[:4000]}, "trace": v.get("trace"),
             "minimised_from": {"case_digest": case_digest(original) if original is not None else None},
         }
         with open(path, "w") as f:
